@@ -36,13 +36,13 @@ Proof. exact tex_refines_contract. Qed.
 (* one operation: equal result and related successor states (all twenty operations) *)
 Theorem c11_step_sim : forall g k b s o, R g b s -> (zn (cap b) <= k)%Z -> op_ok g k s o = true ->
   snd (step b o) = snd (sstep s o) /\ R (next_g g o) (fst (step b o)) (fst (sstep s o)) /\
-  (zn (cap (fst (step b o))) <= next_k k o)%Z.
+  (zn (cap (fst (step b o))) <= next_k k s o)%Z.
 Proof. exact step_sim. Qed.
 
 (* the structural invariant (offset within storage, storage within capacity, nil slice empty) holds in every
    reachable state, and the states stay related *)
 Theorem c11_reachable_related : forall l g k b s, R g b s -> (zn (cap b) <= k)%Z -> ok_seq g k s l = true ->
-  R (gexec g l) (exec b l) (sexec s l) /\ (zn (cap (exec b l)) <= kexec k l)%Z.
+  R (gexec g l) (exec b l) (sexec s l) /\ (zn (cap (exec b l)) <= kexec k s l)%Z.
 Proof. exact reachable_related. Qed.
 Theorem c11_reachable_inv : forall l g k b s, R g b s -> (zn (cap b) <= k)%Z -> ok_seq g k s l = true -> Inv (exec b l).
 Proof. exact reachable_inv. Qed.
